@@ -36,6 +36,7 @@ type Obligation struct {
 	Trace   []string            `json:"replay_trace,omitempty"`
 	Notes   []string            `json:"notes,omitempty"`
 	CexUsed map[string]string   `json:"counterexample_replayed,omitempty"`
+	FullModel map[string]string `json:"full_model,omitempty"` // untrimmed witness (tier "witness" only)
 }
 
 type JobResult struct {
@@ -368,10 +369,44 @@ func runJob(h *Harness, params []int, tier string) *JobResult {
 	res.SolverMs = theSolver.time.Milliseconds()
 	res.SolverErrors = theSolver.errors
 	res.CrossChecked, res.Disagree = theSolver.crossChecked, theSolver.disagreements
+	// required successes that the exploration never even reached (e.g. the set-up no longer works): decide
+	// them through the witnesses committed for the unchanged tree
+	for _, id := range committedRequireIDs(h, params) {
+		found := false
+		for _, ob := range res.Obligations {
+			if ob.ID == id {
+				found = true
+			}
+		}
+		if !found {
+			res.Obligations = append(res.Obligations, &Obligation{ID: id, Kind: "require", Verdict: "unsat", Notes: []string{"never reached by the exploration"}})
+		}
+	}
 	// replays
 	for _, ob := range res.Obligations {
 		switch {
-		case ob.Kind == "cover" && ob.Verdict == "sat":
+		case ob.Kind == "require" && ob.Verdict == "unsat" && ob.Unknown == 0:
+			// a success demanded by the property is no longer reachable: confirm on the VM with the witness
+			// committed for the unchanged tree
+			w := committedWitness(h, params, ob.ID)
+			if w == nil {
+				ob.Replay = "no committed witness"
+				break
+			}
+			r, errMsg := l.replayModel(h, params, w)
+			res.Replays++
+			switch {
+			case errMsg != "":
+				ob.Replay = "error: " + errMsg
+			case r.replayCovers[ob.ID] == 0:
+				ob.Replay = "required-success-lost"
+				ob.Trace = append(r.replayLog, "  the invocation that succeeded on the unchanged tree no longer reaches "+ob.ID)
+				ob.CexUsed = w
+				res.ReplaysAgree++
+			default:
+				ob.Replay = "witness still succeeds on the VM"
+			}
+		case (ob.Kind == "cover" || ob.Kind == "require") && ob.Verdict == "sat":
 			r, errMsg := l.replayModel(h, params, ob.Model)
 			res.Replays++
 			switch {
@@ -387,8 +422,11 @@ func runJob(h *Harness, params []int, tier string) *JobResult {
 				ob.Replay = "diverges"
 				ob.Trace = r.replayLog
 			}
+			if tier == "witness" {
+				ob.FullModel = ob.Model
+			}
 			ob.Model = trimModel(ob.Model)
-		case ob.Kind != "cover" && ob.Verdict == "sat":
+		case ob.Kind != "cover" && ob.Kind != "require" && ob.Verdict == "sat":
 			for _, m := range ob.Models {
 				r, errMsg := l.replayModel(h, params, m)
 				res.Replays++
@@ -477,3 +515,44 @@ func jobMain(args []string) {
 }
 
 func t0var() *T { return VarR("T0", big.NewInt(1000000000000), big.NewInt(1999999999999)) }
+
+
+// committed witnesses of required successes (written by `neosym witnesses`, never at check time)
+type witnessFile map[string]map[string]string
+
+func witnessKey(h *Harness, params []int, id string) string {
+	return fmt.Sprintf("%s%v %s", h.Func, params, id)
+}
+
+func committedWitness(h *Harness, params []int, id string) map[string]string {
+	data, err := os.ReadFile(filepath.Join(verifRoot, "spec", "witnesses", h.Prop+".json"))
+	if err != nil {
+		return nil
+	}
+	var wf witnessFile
+	if json.Unmarshal(data, &wf) != nil {
+		return nil
+	}
+	return wf[witnessKey(h, params, id)]
+}
+
+
+func committedRequireIDs(h *Harness, params []int) []string {
+	data, err := os.ReadFile(filepath.Join(verifRoot, "spec", "witnesses", h.Prop+".json"))
+	if err != nil {
+		return nil
+	}
+	var wf witnessFile
+	if json.Unmarshal(data, &wf) != nil {
+		return nil
+	}
+	prefix := fmt.Sprintf("%s%v ", h.Func, params)
+	var ids []string
+	for k := range wf {
+		if strings.HasPrefix(k, prefix) {
+			ids = append(ids, k[len(prefix):])
+		}
+	}
+	sort.Strings(ids)
+	return ids
+}
